@@ -259,6 +259,106 @@ theorem applyUncheckedMem_ok {K : Core σ} {P : σ → Prop} (hK : LenCore K P) 
         exact rng_all _ _ _ (by rw [hml]; omega)
       rw [htail]
 
+/-! ### `try_apply_keystream_partial` at memory level -/
+
+/-- the body after the check never fails and writes, in both aliasing modes and whatever the output buffer held, the bytes of
+    the value-level mirror `Glue.applyPartialUnchecked` applied to what the input view showed. -/
+theorem partialUncheckedMem_ok {K : Core σ} {P : σ → Prop} (hK : LenCore K P) (w : Nat) (s : σ) (hP : P s)
+    (io : IOBuf) (hw : WF io) :
+    ∃ io', partialUncheckedMem K w s io = some io' ∧ io'.out = applyPartialUnchecked K w s (src io) := by
+  have hbs := hK.bs_pos
+  have hsl := src_length io hw
+  -- number of whole blocks handed to the block loop
+  generalize hnb : (if io.len > K.bs then io.len / K.bs else 0) = nb
+  have hnbfit : nb * K.bs ≤ io.len := by
+    rw [← hnb]; split
+    · exact Nat.div_mul_le_self _ _
+    · omega
+  obtain ⟨hg1, hg2, hg3⟩ := genBlocks_len hK w nb s hP
+  obtain ⟨io1, h1, hU⟩ := applyBlocksMem_upto io io 0 K.bs nb [] (genBlocks K w nb s).1 (Upto.init io hw) hg1 hg2 (by omega)
+  simp only [Nat.zero_add, List.nil_append] at hU
+  -- the blocks the loop read, as chunks
+  have hblocks : blocksAt (src io) K.bs nb 0 = (if (src io).length > K.bs then chunks K.bs (src io) else []) := by
+    rw [hsl, ← hnb]
+    split
+    · rw [← hsl]; exact blocksAt_eq_chunks (src io) K.bs hbs
+    · rfl
+  -- names for the whole blocks and the rest, as the value-level mirror cuts them
+  generalize hB : (if io.len > K.bs then chunks K.bs (src io) else []) = B
+  generalize hT : (if io.len > K.bs then chunksTail K.bs (src io) else src io) = T
+  rw [hsl, hB] at hblocks
+  have hBlen : B.length = nb := by rw [← hblocks, blocksAt_length]
+  have hTdrop : T = (src io).drop (nb * K.bs) := by
+    rw [← hT, ← hnb]; split
+    · rw [chunksTail_eq_drop K.bs hbs, hsl]
+    · simp
+  have hTlen : T.length = io.len - nb * K.bs := by rw [hTdrop, List.length_drop, hsl]
+  have hTle : io.len - nb * K.bs ≤ K.bs := by
+    rw [← hnb]; split
+    · have := Nat.mod_lt io.len hbs
+      have h2 := Nat.div_add_mod io.len K.bs
+      have h3 : K.bs * (io.len / K.bs) = io.len / K.bs * K.bs := Nat.mul_comm _ _
+      omega
+    · omega
+  have hAB : (applyBlocks K w s B).1 = List.zipWith xorB B (genBlocks K w nb s).1 ∧ (applyBlocks K w s B).2 = (genBlocks K w nb s).2 := by
+    simp [applyBlocks, hBlen]
+  unfold partialUncheckedMem applyPartialUnchecked
+  simp only [hnb, h1, hsl, hB, hT, hAB.1, hAB.2, hTlen]
+  rw [hblocks] at hU
+  by_cases hn : io.len - nb * K.bs = 0
+  · simp only [hn, if_true]
+    refine ⟨io1, rfl, ?_⟩
+    have : nb * K.bs = io.len := by omega
+    rw [this] at hU
+    exact upto_final io io1 _ hU
+  · simp only [hn, if_false]
+    -- the rest as the input view shows it after the block loop
+    have hrest : rng (src io1) (nb * K.bs) (io.len - nb * K.bs) = T := by
+      rw [rng_congr _ _ (nb * K.bs) (nb * K.bs) _ (hU.src _ (Nat.le_refl _)) (Nat.le_refl _), hTdrop]
+      unfold rng
+      exact List.take_of_length_le (by rw [List.length_drop, hsl]; omega)
+    rw [getIn?_eq io1 _ _ (by rw [hU.len]; omega), hrest]
+    simp only
+    rw [blockSet?_eq (zeros K.bs) 0 (io.len - nb * K.bs) T (Nat.zero_le _) (by simp [zeros]; omega) (by rw [hTlen]; omega)]
+    have hblock : setRng (zeros K.bs) 0 T = T ++ zeros (K.bs - T.length) := by simp [setRng, zeros]
+    simp only [hblock, hTlen]
+    -- one more keystream block
+    obtain ⟨k1, k2, k3⟩ := genBlocks_len hK w 1 (genBlocks K w nb s).2 hg3
+    obtain ⟨kb, hkb⟩ : ∃ kb, (genBlocks K w 1 (genBlocks K w nb s).2).1 = [kb] := by
+      match hq : (genBlocks K w 1 (genBlocks K w nb s).2).1, k1 with
+      | [x], _ => exact ⟨x, rfl⟩
+    have hkbl : kb.length = K.bs := k2 kb (by rw [hkb]; simp)
+    have hA1 : (applyBlocks K w (genBlocks K w nb s).2 [T ++ zeros (K.bs - (io.len - nb * K.bs))]).1.flatten
+        = xorB (T ++ zeros (K.bs - (io.len - nb * K.bs))) kb := by
+      simp [applyBlocks, hkb]
+    rw [hA1, hkb]
+    simp only [List.headD_cons]
+    have hpl : (T ++ zeros (K.bs - (io.len - nb * K.bs))).length = K.bs := by simp [zeros, hTlen]; omega
+    rw [slice?_eq _ 0 (io.len - nb * K.bs) (Nat.zero_le _) (by simp [hpl, hkbl]; omega)]
+    simp only [List.drop_zero, Nat.sub_zero]
+    have hvl : ((xorB (T ++ zeros (K.bs - (io.len - nb * K.bs))) kb).take (io.len - nb * K.bs)).length = io.len - nb * K.bs := by
+      rw [List.length_take, xorB_length, hpl, hkbl]; omega
+    rw [setOut?_eq io1 _ _ _ (by rw [hU.len]; omega) hvl]
+    refine ⟨_, rfl, ?_⟩
+    have hU2 := upto_of_write io io1 (io1.setOut (nb * K.bs) ((xorB (T ++ zeros (K.bs - (io.len - nb * K.bs))) kb).take (io.len - nb * K.bs)))
+      (nb * K.bs) (io.len - nb * K.bs) _ _ hU hvl (by omega)
+      (by simp only [IOBuf.setOut, setRng, hvl, List.append_assoc]) rfl rfl
+    have : nb * K.bs + (io.len - nb * K.bs) = io.len := by omega
+    rw [this] at hU2
+    exact upto_final io _ _ hU2
+
+
+/-- the public call: `err` (nothing written) iff the dependency's check refuses, otherwise `ok` with the value-level bytes —
+    never `panic`. -/
+theorem partialMem_eq {K : Core σ} {P : σ → Prop} (hK : LenCore K P) (w : Nat) (s : σ) (hP : P s) (io : IOBuf) (hw : WF io) :
+    partialMem K w s io =
+      (if partialCheck K s io.len then .ok (applyPartialUnchecked K w s (src io)) else .err io.out) := by
+  unfold partialMem
+  split
+  · obtain ⟨io', h1, h2⟩ := partialUncheckedMem_ok hK w s hP io hw
+    simp only [h1, h2]
+  · rfl
+
 end Impl.MemWr
 
 /-! ### the three cores of /repo are length-regular -/
